@@ -27,12 +27,12 @@ type uDep struct {
 	Req  string `json:"req"`
 }
 type uVer struct {
-	V    string `json:"v"`
-	Tag  string `json:"tag,omitempty"`
+	V   string `json:"v"`
+	Tag string `json:"tag,omitempty"`
 	// Unlisted: the registry serves the version when asked for it (Version, Requirements) but does not list
 	// it (Versions, MatchingVersions) - a Maven artifact missing from maven-metadata.xml.
-	Unlisted bool `json:"unlisted,omitempty"`
-	Deps []uDep `json:"deps,omitempty"`
+	Unlisted bool   `json:"unlisted,omitempty"`
+	Deps     []uDep `json:"deps,omitempty"`
 }
 type uPkg struct {
 	Name     string `json:"name"`
